@@ -14,6 +14,12 @@ package bitmap
 //@ global Bit: forall j int :: 0 <= j && j < 64 ==> Bit[j] == uint64(1) << uint64(j)
 //@ global RBit: forall j int :: 0 <= j && j < 64 ==> RBit[j] == ^(uint64(1) << uint64(j))
 
+// the synthesized package initialiser: variable initialisers, then init#1
+//@ func init
+//@   initphase
+//@   assigns Mask, RMask, MaskUpto, RMaskUpto, Bit, RBit, select8Lookup, reclaimThreshold
+//@   establishes globals
+
 //@ func init#1
 //@   initphase
 //@   assigns Mask, RMask, MaskUpto, RMaskUpto, Bit, RBit, select8Lookup
